@@ -126,6 +126,15 @@ Lemma kube_json_fields k :
   /\ get_arr (bs "includeSnapshotsFrom") (kube_json k) = map JStr (k_incl k).
 Proof. destruct k. repeat split; reflexivity. Qed.
 
+Lemma kube_json_selects k :
+  jget (bs "apiVersion") (kube_json k) = Some (JStr (k_api k))
+  /\ jget (bs "names") (kube_json k) = Some (jopt jstrs (k_names k))
+  /\ jget (bs "namespaces") (kube_json k) = Some (jopt jstrs (k_namespaces k))
+  /\ jget (bs "labelSelector") (kube_json k) = Some (jopt (fun x => x) (k_lsel k))
+  /\ jget (bs "fieldSelector") (kube_json k) = Some (jopt (fun x => x) (k_fsel k))
+  /\ jget (bs "namespaceLabelSelector") (kube_json k) = Some (jopt (fun x => x) (k_ns_lsel k)).
+Proof. destruct k. repeat split; reflexivity. Qed.
+
 Lemma adm_json_fields a :
   jget (bs "name") (adm_json a) = Some (JStr (a_name a))
   /\ jget (bs "group") (adm_json a) = Some (JStr (a_group a))
@@ -181,13 +190,44 @@ Proof.
   now rewrite (has_intro _ _ _ H1), (has_intro _ _ _ H2), (has_intro _ _ _ H3), (has_intro _ _ _ H5).
 Qed.
 
+Lemma selects_ok_v1 doc j : selects_ok j (kube_json (conv_kube doc j)) = true.
+Proof.
+  destruct (kube_json_selects (conv_kube doc j)) as (S1 & S2 & S3 & S4 & S5 & S6).
+  cbn [conv_kube k_api k_names k_namespaces k_lsel k_fsel k_ns_lsel] in *.
+  unfold selects_ok, declared_names, declared_or_null.
+  rewrite (has_intro _ _ _ S1).
+  assert (E2 : has (bs "names") match jget (bs "nameSelector") j with
+                                | Some ns => jstrs (get_strs (bs "matchNames") ns) | None => JNull end
+                   (kube_json (conv_kube doc j)) = true).
+  { apply has_intro. rewrite S2. unfold opt_names, jopt. now destruct (jget (bs "nameSelector") j). }
+  rewrite E2.
+  assert (E3 : has (bs "namespaces")
+                 match match jget (bs "namespace") j with Some ns => jget (bs "nameSelector") ns | None => None end with
+                 | Some ns => jstrs (get_strs (bs "matchNames") ns) | None => JNull end
+                 (kube_json (conv_kube doc j)) = true).
+  { apply has_intro. rewrite S3. unfold opt_names, jopt.
+    destruct (jget (bs "namespace") j) as [ns|]; [|reflexivity]. now destruct (jget (bs "nameSelector") ns). }
+  rewrite E3.
+  assert (E4 : has (bs "labelSelector") match jget (bs "labelSelector") j with Some x => x | None => JNull end
+                   (kube_json (conv_kube doc j)) = true).
+  { apply has_intro. rewrite S4. unfold jopt. now destruct (jget (bs "labelSelector") j). }
+  rewrite E4.
+  assert (E5 : has (bs "fieldSelector") match jget (bs "fieldSelector") j with Some x => x | None => JNull end
+                   (kube_json (conv_kube doc j)) = true).
+  { apply has_intro. rewrite S5. unfold jopt. now destruct (jget (bs "fieldSelector") j). }
+  rewrite E5.
+  apply has_intro. rewrite S6. unfold jopt.
+  destruct (jget (bs "namespace") j) as [ns|]; [|reflexivity]. now destruct (jget (bs "labelSelector") ns).
+Qed.
+
 Lemma kube_ok_v1 doc j : kube_ok true j (kube_json (conv_kube doc j)) = true.
 Proof.
+  pose proof (selects_ok_v1 doc j) as HS.
   destruct (kube_json_fields (conv_kube doc j)) as (H1 & H2 & H3 & H4 & H5 & H6 & H7 & H8 & H9 & H10 & H11). projs.
   unfold queue_of, kube_eff_name in *. unfold kube_ok, declared_events_v1.
   now rewrite (has_intro _ _ _ H1), (has_intro _ _ _ H2), (has_intro _ _ _ H3), (has_intro _ _ _ H4),
     (has_intro _ _ _ H5), (has_intro _ _ _ H6), (has_intro _ _ _ H7), (has_intro _ _ _ H8), (has_intro _ _ _ H9),
-    (has_intro _ _ _ H10), (incl_ok_eff doc j _ H11).
+    (has_intro _ _ _ H10), (incl_ok_eff doc j _ H11), HS.
 Qed.
 
 Lemma v0_events_agree l :
